@@ -14,6 +14,7 @@ import (
 	"reflect"
 	"sort"
 	"strings"
+	"sync/atomic"
 	"time"
 	"unicode"
 
@@ -194,6 +195,8 @@ func predecessor(c Cfg) Cfg {
 	return p
 }
 
+var bootCounter int64
+
 func boot(opt options, c Cfg, mount string, viaReload bool) (*instance, error) {
 	in := &instance{opt: opt, cfg: c, mount: mount, bootKind: "direct"}
 	in.tok = makeTokens(opt.seed, c)
@@ -202,7 +205,7 @@ func boot(opt options, c Cfg, mount string, viaReload bool) (*instance, error) {
 		pfx += "_R"
 		in.bootKind = "reload"
 	}
-	in.dir = filepath.Join(opt.scratch, fmt.Sprintf("pa-%s-%s-%s-%d", c.ID(), mount, in.bootKind, os.Getpid()))
+	in.dir = filepath.Join(opt.scratch, fmt.Sprintf("pa-%s-%s-%s-%d-%d", c.ID(), mount, in.bootKind, os.Getpid(), atomic.AddInt64(&bootCounter, 1)))
 	text := configText(c, mount, pfx, in.tok, true)
 	first := text
 	if viaReload {
